@@ -67,12 +67,12 @@ class TimelineProcess(Process):
         while self.timeline and time >= self.timeline[0][0]:
             _, change_dict = self.timeline.pop(0)
             for path_to_variable, value in change_dict.items():
-                # make embedded dict with keys listed in path_to_variable
-                update_at_path = {}
+                # set the variable at path_to_variable; a later event
+                # of the same tick replaces what an earlier one set (its
+                # value is a value, not a dictionary to merge into)
                 update_value = {
                     '_value': value,
                     '_updater': 'set'}
-                nested_set(update_at_path, path_to_variable, update_value)
-                update = deep_merge_combine_lists(update, update_at_path)
+                nested_set(update, path_to_variable, update_value)
             log.info('timeline update: {}'.format(update))
         return update
